@@ -209,6 +209,26 @@ where
     }
     let exhausted = it.next().is_none() && it.next_back().is_none();
     let end = if exhausted { it.len() as u64 } else { BAD };
+    // the provided methods of `Iterator` / `DoubleEndedIterator` (a type may override any of them) must
+    // agree with what `next` / `next_back` yield: internal iteration in both directions, `count`, `last`,
+    // `nth`, `nth_back`.  A disagreement is reported through an impossible `len`.
+    let push = |mut acc: Vec<u64>, x: T| {
+        acc.push(ix(&x));
+        acc
+    };
+    let mut via_for_each = vec![];
+    mk().rev().for_each(|x| via_for_each.push(ix(&x)));
+    let derived_ok = mk().fold(vec![], push) == fwd
+        && mk().rfold(vec![], push) == back
+        && via_for_each == back
+        && mk().rev().fold(vec![], push) == back
+        && mk().rev().rfold(vec![], push) == fwd
+        && mk().count() == fwd.len()
+        && mk().last().map(|x| ix(&x)) == fwd.last().copied()
+        && mk().rev().last().map(|x| ix(&x)) == fwd.first().copied()
+        && (0..=fwd.len()).all(|k| mk().nth(k).map(|x| ix(&x)) == fwd.get(k).copied())
+        && (0..=fwd.len()).all(|k| mk().nth_back(k).map(|x| ix(&x)) == back.get(k).copied());
+    let len = if derived_ok { len } else { BAD };
     IterObs { fwd, len, back, mixed, end }
 }
 
